@@ -1,5 +1,8 @@
 """C19 - infeasibility diagnosis names constraints that really conflict."""
 import copy
+import os
+import shutil
+import tempfile
 
 from hypothesis import strategies as st
 
@@ -12,7 +15,7 @@ RULE = (
     "checked first - plus 1-5 generated user constraints (incompatible start/end pins, precedence cycles, windows shorter than "
     "durations, unavailability covering the horizon, and random ones) among which 0-4 are irrelevant; in a second stratum members of the "
     "conflicts are optional constraints obliged to apply by a ForceApplyNOptionalConstraints rule. Each is solved with "
-    "debug=True and, independently rebuilt, with debug=False. Oracle: same verdict in both modes; a schedule returned in debug "
+    "debug=True (in half of the cases after initialize() and / or export_to_smt2() on the same solver) and, independently rebuilt, with debug=False. Oracle: same verdict in both modes; a schedule returned in debug "
     "mode is reference-valid; when infeasible, every constraint object printed in the conflict list is a member of "
     "problem.constraints, the list is not empty, and base + listed constraints (rebuilt, solved without debug) is infeasible. "
     "Non-trivial = infeasible problem with >= 1 irrelevant constraint present and not listed, or >= 2 constraints listed; "
@@ -77,7 +80,9 @@ def cases(draw, forced_optional=False):
     perm = draw(st.permutations(list(range(len(spec["constraints"])))))
     cs = [spec["constraints"][i] for i in perm]
     spec["constraints"] = [c for c in cs if c["type"] != "ForceApplyNOptionalConstraints"] + [c for c in cs if c["type"] == "ForceApplyNOptionalConstraints"]
-    return {"spec": spec, "seed": draw(st.integers(0, 2**30))}
+    # calls made on the debug solver before solve(): they must not change the diagnosis
+    pre = draw(st.sampled_from([[], [], [], ["export"], ["export"], ["initialize"], ["initialize", "export"]]))
+    return {"spec": spec, "seed": draw(st.integers(0, 2**30)), "pre": pre}
 
 
 def base_of(spec, keep_names=()):
@@ -87,9 +92,18 @@ def base_of(spec, keep_names=()):
     return s
 
 
-def solve_debug(spec, seed, extra=None):
+def solve_debug(spec, seed, extra=None, pre=()):
     h = B.build(spec, seed, solver_kwargs=dict({"debug": True}, **(extra or {})))
     try:
+        for op in pre:
+            if op == "initialize":
+                h.solver.initialize()
+            elif op == "export":
+                d = tempfile.mkdtemp(prefix="vf_c19_")
+                try:
+                    h.solver.export_to_smt2(os.path.join(d, "p.smt2"))
+                finally:
+                    shutil.rmtree(d, ignore_errors=True)
         with env.collect_prints() as printed:
             sol = h.solver.solve()
             listed = []
@@ -115,7 +129,7 @@ def prop(ctx, case, extra=None):
     spec, seed = case["spec"], case["seed"]
 
     def viol(rule, observed, extra=None):
-        ctx.violation({"check": "C19.diagnosis", "rule": rule, "spec": spec, "seed": seed, "probe": dict({"kind": "debug_solve"}, **(extra or {})),
+        ctx.violation({"check": "C19.diagnosis", "rule": rule, "spec": spec, "seed": seed, "pre": case.get("pre") or [], "probe": dict({"kind": "debug_solve"}, **(extra or {})),
                        "observed": observed, "signature": {"rule": rule, "classes": engine.classes_of(spec)}})
 
     try:
@@ -136,7 +150,7 @@ def prop(ctx, case, extra=None):
         ctx.event("plain_solve_raised")
         return
     try:
-        h, sol, listed, header = solve_debug(spec, seed + 1, extra)
+        h, sol, listed, header = solve_debug(spec, seed + 1, extra, case.get("pre") or ())
     except Exception as exc:
         viol("debug_solve_raised", repr(exc))
         return
@@ -228,7 +242,7 @@ def replay(record):
     from ..runner import Ctx
     ctx = Ctx("C19", "quick", 0, 0, 1, collect=True)
     ctx.replaying = True
-    prop(ctx, {"spec": record["spec"], "seed": record.get("seed", 0)})
+    prop(ctx, {"spec": record["spec"], "seed": record.get("seed", 0), "pre": record.get("pre") or []})
     if ctx.violations:
         b, (sz, rec) = next(iter(ctx.violations.items()))
         return True, {"rule": rec["rule"], "observed": rec["observed"]}
